@@ -1,7 +1,7 @@
 (** Correspondence cases of the `purekeys` scenario family (C07, C15, C16, C48): each constructor carries the
     inputs the implementation was run on and the outputs it returned; [check] re-computes them with the models
     the theorems are about. *)
-From IBC Require Import Lib.Bytes Lib.BytesFacts Lib.Dec Lib.BE64 Lib.CorrLib Core.Height Keys.Ident Keys.StoreKeys.
+From IBC Require Import Lib.Bytes Lib.BytesFacts Lib.Dec Lib.BE64 Lib.CorrLib Lib.Sha256 Core.Height Keys.Ident Keys.StoreKeys Keys.Commit Keys.Router.
 Local Open Scope N_scope.
 
 Definition pair_eqb (a b : bytes * N) : bool := bytes_eqb (fst a) (fst b) && (snd a =? snd b).
@@ -39,9 +39,19 @@ Inductive Case :=
 (* C16 *)
 | KeyEq (model out : bytes)                       (* a key function of the model applied to the inputs vs Go's bytes *)
 | KeyOf (k : Key) (out : bytes)                   (* [encode] of the structured key vs Go's bytes *)
-| Iter (store : list Key) (q : Query) (out : option (list N)).   (* keeper prefix iteration; None = panic *)
+| Iter (store : list Key) (q : Query) (out : option (list N))    (* keeper prefix iteration; None = panic *)
+(* C07: the models instantiated with the executable SHA-256 *)
+| Sha (msg out : bytes)
+| PktCommit1 (ts rn rh : N) (data out : bytes)
+| AckCommit1 (data out : bytes)
+| PktCommit2 (dest : bytes) (ts : N) (ps : list Payload) (out : bytes)
+| AckCommit2 (acks : list bytes) (out : bytes)
+(* C48: registration attempts (accepted flags), then (HasRoute, Route) per queried port; None = Route panics *)
+| Router2Case (ops : list Op2) (ports : list bytes) (acc : list bool) (res : list (bool * option N))
+| Router1Case (ops : list (bool * bytes * N)) (ports : list bytes) (acc : list bool) (res : list (option N)) (keys : list bytes)
+| Both (a b : Case).
 
-Definition check (c : Case) : bool :=
+Fixpoint check (c : Case) : bool :=
   match c with
   | Blank s b => bool_eqb (is_blank s) b
   | ValidId s v cl conn chan port alnum =>
@@ -83,4 +93,19 @@ Definition check (c : Case) : bool :=
   | KeyEq m out => bytes_eqb m out
   | KeyOf k out => bytes_eqb (encode k) out
   | Iter store q out => opt_eqb (list_eqb N.eqb) (option_map sortN (iterate store q)) (option_map sortN out)
+  | Sha msg out => bytes_eqb (sha256 msg) out
+  | PktCommit1 ts rn rh data out => bytes_eqb (commit_packet_v1 sha256 ts rn rh data) out
+  | AckCommit1 data out => bytes_eqb (commit_ack_v1 sha256 data) out
+  | PktCommit2 dest ts ps out => bytes_eqb (commit_packet_v2 sha256 dest ts ps) out
+  | AckCommit2 acks out => bytes_eqb (commit_ack_v2 sha256 acks) out
+  | Router2Case ops ports acc res =>
+      let '(a, r) := run2_trace empty2 ops in
+      list_eqb bool_eqb a acc &&
+      list_eqb (fun x y => bool_eqb (fst x) (fst y) && opt_eqb N.eqb (snd x) (snd y))
+               (map (fun p => (has_route r p, get_route r p)) ports) res
+  | Router1Case ops ports acc res keys =>
+      let '(a, r) := run1_trace empty1 ops in
+      list_eqb bool_eqb a acc && list_eqb (opt_eqb N.eqb) (map (route1 r) ports) res &&
+      list_eqb bytes_eqb (keys1 r) keys
+  | Both a b => check a && check b
   end.
